@@ -131,11 +131,20 @@ def tensor_cases(draw, tier):
                                   pool=pool, min_boxes=1))
         b = {"k": "bubble", "inside": inner,
              "f": draw(st.sampled_from(sorted(classes.BUBBLE_FUNCS)))}
-        if len(inner["dom"]) + len(specs.spec_cod(inner)) <= 4:
-            tail = draw(gen.diagrams("tensor", dom=specs.spec_cod(inner),
-                                     max_boxes=3, max_width=4, pool=pool))
-            spec = {"cls": "tensor", "dom": inner["dom"],
-                    "layers": [[b, 0]] + tail["layers"]}
+        icod = specs.spec_cod(inner)
+        if len(inner["dom"]) + len(icod) <= 4:
+            first = [[b, 0]]
+            dom, cod = inner["dom"], icod
+            if len(inner["dom"]) + len(icod) <= 2 and draw(st.booleans()):
+                # the same inside under another function, side by side
+                other = dict(b, f=draw(st.sampled_from(sorted(
+                    set(classes.BUBBLE_FUNCS) - {b["f"]}))))
+                first = [[b, 0], [other, len(icod)]]
+                dom, cod = dom + dom, icod + icod
+            tail = draw(gen.diagrams("tensor", dom=cod, max_boxes=3,
+                                     max_width=4, pool=pool))
+            spec = {"cls": "tensor", "dom": dom,
+                    "layers": first + tail["layers"]}
     par = draw(gen.diagrams_to("tensor", spec["dom"], specs.spec_cod(spec),
                                max_boxes=3, max_width=4, pool=pool))
     # some generators carry real (integer) data: bubble functions may then
